@@ -9,7 +9,7 @@ import copy, random
 from .common import pmap, result
 from .C01 import _cls
 from . import docgen
-NS = {'t': 'urn:t'}
+NS = {'t': 'urn:t', 'xs': 'http://www.w3.org/2001/XMLSchema', 'xsi': 'http://www.w3.org/2001/XMLSchema-instance'}
 FAULTS = ('bad_text', 'extra_child', 'extra_attr', 'drop_attr', 'drop_child', 'swap_children', 'wild_child')
 _S = {}
 
@@ -20,7 +20,7 @@ def eval_doc(args):
     from xml.etree import ElementTree as ET
     s = _S.get(ver) or _S.setdefault(ver, _cls(ver)(docgen.schema_for(ver)))
     root = ET.fromstring(doc)
-    if not s.is_valid(root): return dict(doc=doc, ver=ver, cases=0, bad=[('generator produced an invalid base document', '')])
+    if not s.is_valid(root, namespaces=NS): return dict(doc=doc, ver=ver, cases=0, bad=[('generator produced an invalid base document', '')])
     bad = []; n = 0
     nodes = list(root.iter())
     for idx, target in enumerate(nodes):
@@ -45,7 +45,7 @@ def eval_doc(args):
                 if len(t2) < 2 or t2[0].tag == t2[1].tag: continue
                 a = t2[0]; t2.remove(a); t2.insert(1, a)
             n += 1
-            try: errs = list(s.iter_errors(r2))
+            try: errs = list(s.iter_errors(r2, namespaces=NS))
             except Exception as e: bad.append((fault, f'raised {type(e).__name__}: {e}')); continue
             if not errs: bad.append((fault, f'fault at node {idx} <{t2.tag}> not detected')); continue
             parent = {c: p for p in r2.iter() for c in p}
@@ -70,8 +70,8 @@ def run(tier, seed, open_findings):
     docs = []
     for _ in range(n):
         k = rng.randrange(1, 4)
-        docs.append('<t:r xmlns:t="urn:t">' + ''.join(
-            f'<t:item id="i{i}" code="{i}"><t:name>n</t:name><t:qty>1</t:qty>' + ('<t:kind>article</t:kind>' if (i + k) % 2 else '') + ''.join(f'<t:sub ref="i{rng.randrange(k)}" codeRef="{rng.randrange(k)}"><t:leaf>1</t:leaf></t:sub>'
+        docs.append('<t:r xmlns:t="urn:t" xmlns:xs="http://www.w3.org/2001/XMLSchema" xmlns:xsi="http://www.w3.org/2001/XMLSchema-instance">' + ''.join(
+            f'<t:item id="i{i}" code="{i}"><t:name>n</t:name><t:qty>1</t:qty>' + ('<t:kind>article</t:kind>' if (i + k) % 2 else '') + ('<t:val xsi:type="xs:int">5</t:val>' if (i + k) % 3 == 0 else '') + ''.join(f'<t:sub ref="i{rng.randrange(k)}" codeRef="{rng.randrange(k)}"><t:leaf>1</t:leaf></t:sub>'
                                                                                       for _ in range(rng.randrange(3))) + '</t:item>' for i in range(k)) + '</t:r>')
     jobs = [(ver, d) for d in docs for ver in ('1.0', '1.1')]
     res = pmap(eval_doc, jobs, chunk=1)
@@ -90,7 +90,7 @@ def eval_all11(doc):
     from xml.etree import ElementTree as ET
     s = _S.get('all11') or _S.setdefault('all11', xmlschema.XMLSchema11(ALL11))
     root = ET.fromstring(doc); bad = []; n = 0
-    if not s.is_valid(root): return dict(doc=doc, cases=0, bad=[('generator', 'base document invalid')])
+    if not s.is_valid(root, namespaces=NS): return dict(doc=doc, cases=0, bad=[('generator', 'base document invalid')])
     for gi, g in enumerate(root):
         for ci, c in enumerate(g):
             left = sum(1 for x in g if x.tag == c.tag) - 1
